@@ -45,6 +45,8 @@ type tlsVec struct {
 	Src       []string   `json:"src"`
 	NameKind  string     `json:"namekind"`
 	CertNames [][]string `json:"certnames"`
+	SeqPins   []seqPin   `json:"seqpins"`
+	Calls     []seqCall  `json:"calls"`
 	Conds     struct {
 		Chain bool `json:"chain"`
 		Time  bool `json:"time"`
@@ -572,9 +574,11 @@ func init() {
 
 			return
 		}
-		var table, stream []*tlsVec
+		var table, stream, seqs []*tlsVec
 		for i := range vecs {
-			if vecs[i].Fam == "stream" {
+			if vecs[i].Fam == "seq" {
+				seqs = append(seqs, &vecs[i])
+			} else if vecs[i].Fam == "stream" {
 				stream = append(stream, &vecs[i])
 			} else {
 				table = append(table, &vecs[i])
@@ -582,6 +586,7 @@ func init() {
 		}
 		// deterministic order independent of TLC's
 		sort.Slice(table, func(i, j int) bool { return fmt.Sprint(*table[i]) < fmt.Sprint(*table[j]) })
+		sort.Slice(seqs, func(i, j int) bool { return fmt.Sprint(*seqs[i]) < fmt.Sprint(*seqs[j]) })
 		sort.Slice(stream, func(i, j int) bool { return fmt.Sprint(*stream[i]) < fmt.Sprint(*stream[j]) })
 
 		// which vectors get a handshake: every feasible one with at most one failing condition, plus a seeded sample
@@ -694,10 +699,16 @@ func init() {
 			}
 			res.count("vectors_table")
 		})
+		// history independence: long-lived verifier instances and configurations fed with sequences of certificates
+		parallel(len(seqs), workers, func(i int) {
+			n := <-nodes
+			defer func() { nodes <- n }()
+			runSeq(env, n, seqs[i], i)
+		})
 		cancel()
 		res.mu.Lock()
-		res.Evaluations = len(table)
-		res.Distinct = ndistinct
+		res.Evaluations = len(table) + res.Counters["vectors_seq"]
+		res.Distinct = ndistinct + res.Counters["vectors_seq"]
 		res.mu.Unlock()
 		res.add("certificates_made", int(p.made))
 
